@@ -356,6 +356,7 @@ fn pinned() -> Vec<(&'static str, Vec<Ev>, Vec<Dir>)> {
         // second open of a compiled project: the cached compilation is instantaneous
         ("second-open", vec![Ev::Open, Ev::Open, Ev::Change(1)], vec![Dir::ToBlock(0), Dir::ToBlock(w), Dir::ToBlock(0), Dir::Until(1, "wait:is_compiling?"), Dir::ToBlock(w), Dir::ToBlock(1), Dir::ToBlock(2), Dir::ToBlock(w)]),
         // a compilation that fails (text does not parse) must still release the waiters
+        ("failed-compilation-releases-waiter", vec![Ev::Open, Ev::ChangeBroken(1), Ev::Symbols], vec![Dir::ToBlock(0), Dir::ToBlock(w), Dir::ToBlock(0), Dir::ToBlock(1), Dir::ToBlock(2), Dir::ToBlock(w), Dir::ToBlock(2)]),
         ("failed-compilation-releases-waiters", vec![Ev::Open, Ev::ChangeBroken(1), Ev::Symbols, Ev::Save], vec![Dir::ToBlock(0), Dir::ToBlock(w), Dir::ToBlock(0), Dir::ToBlock(1), Dir::ToBlock(2), Dir::ToBlock(w), Dir::ToBlock(2), Dir::ToBlock(3), Dir::ToBlock(w), Dir::ToBlock(3)]),
         // KNOWN finding: a save drains the queued request of the change; its own request carries no versions
         ("save-drains-change", vec![Ev::Open, Ev::Change(1), Ev::Save], vec![Dir::ToBlock(0), Dir::ToBlock(w), Dir::ToBlock(0), Dir::ToBlock(1), Dir::ToBlock(2), Dir::ToBlock(w), Dir::ToBlock(2)]),
@@ -413,6 +414,7 @@ pub fn run(ctx: &Ctx) {
             match execute(&script, &mut DirChooser { dirs, at: 0 }) {
                 Ok(o) => {
                     record(&script, &o, &format!("pinned:{name}"));
+                    rep.class(&format!("pinned:{name}:last_state={}", o.snapshot.last_compilation_state));
                 }
                 Err(e) => rep.inconclusive(&format!("pinned {name}: {e}")),
             }
@@ -421,7 +423,7 @@ pub fn run(ctx: &Ctx) {
 
     // (ii) exhaustive enumeration of the 2-event scripts
     if want("enum") {
-        let budget = ctx.cases(400, 40_000);
+        let budget = ctx.cases(300, 40_000);
         let scripts = [vec![Ev::Open, Ev::Symbols], vec![Ev::Open, Ev::Save], vec![Ev::Open, Ev::Change(1)], vec![Ev::Open, Ev::Open]];
         let results: Vec<(usize, u64, u64, bool)> = std::thread::scope(|sc| {
             let hs: Vec<_> = scripts
@@ -430,6 +432,7 @@ pub fn run(ctx: &Ctx) {
                 .map(|(si, script)| {
                     let record = &record;
                     let rep = &rep;
+                    let real_failures = &real_failures;
                     sc.spawn(move || {
                         let mut stack: Vec<DfsNode> = vec![];
                         let (mut complete, mut blocked) = (0u64, 0u64);
@@ -483,7 +486,7 @@ pub fn run(ctx: &Ctx) {
 
     // (iii) random scripts and schedules
     if want("random") && real_failures.load(std::sync::atomic::Ordering::Relaxed) == 0 {
-        let cases = ctx.cases(1200, 60_000);
+        let cases = ctx.cases(640, 60_000);
         let out = run_prop(ctx, 24, cases, strategy, |c| {
             let o = execute(&c.script, &mut VecChooser { v: &c.schedule }).map_err(|e| format!("HARNESS\u{1}{e}"));
             let o = match o {
